@@ -501,7 +501,7 @@ pub fn c02_inherent_adjacency_map_n3() {
     inherent::<AdjacencyMap, 3>(1);
 }
 
-// @verif prop=C02 tier=quick fl=f1 feat=map4 role=noncontiguous/adjacency-map t=1500 mem=24
+// @verif prop=C02 tier=thorough fl=f1 feat=map4 role=noncontiguous/adjacency-map t=3600 mem=30
 #[cfg_attr(kani, kani::proof)]
 #[cfg_attr(kani, kani::unwind(10))]
 pub fn c02_map_noncontiguous() {
